@@ -999,6 +999,17 @@ def rule_string_equality(rep, fb, floor=3, name="STR.exact-compare"):
                         r.check(bool(lens_eq), key, where, "%s tests string equality with %s limited to the length of one operand and no test that the lengths are equal: every prefix (and the empty string) compares equal" % (f["qual"], nm),
                                 detail="lengths compared too")
         cs.each_block_cont(f["body"], onblock)
+    # kernels never see NUL-terminated strings: every string is an offset-delimited byte range that may contain NUL
+    for p, tu in sorted(fb.kernel_tus().items()):
+        for f in tu["funcs"]:
+            if f["inst"]:
+                continue
+            k = 0
+            for c in find_all(f["body"], lambda k: k[0] == "call" and k[1][0] == "fn" and str(k[1][1]).split("::")[-1] in ("strcmp", "strncmp", "memcmp")):
+                k += 1
+                nm = str(c[1][1]).split("::")[-1]
+                r.check(nm == "memcmp", "%s#%s#%d" % (f["name"], nm, k), "%s:%d" % (f["file"], c[-1]),
+                        "kernel %s compares offset-delimited byte ranges with %s, which stops at an embedded NUL byte (use memcmp)" % (f["name"], nm), detail="memcmp on byte ranges")
     return r.done()
 
 
@@ -1177,4 +1188,195 @@ def rule_index_ptr_offset(rep, fb, floor=8, name="INDEX.ptr-offset"):
             else:
                 r.check(from_owner, key, where, "%s builds an Index around the buffer of `%s` with offset `%s`, which is not derived from that Index's own offset: a view of a sliced Index starts at the wrong element"
                         % (f["qual"], str(own)[:40], str(_noline(O))[:50]), detail="offset derived from the owner's offset")
+    return r.done()
+
+
+# ------------------------------------------------------------------------------------------------
+# L-21  a pointer that a test has just found to be null is not dereferenced in that branch
+
+def rule_null_branch_deref(rep, fb, floor=300, name="NULL.deref-in-else"):
+    r = rep.rule(name, "in `if (T* p = dynamic_cast<T*>(x)) {...} else {...}` (and `if (p != nullptr)` / `if (p == nullptr)` on a local pointer) the branch in which p is null does not dereference p: "
+                 "the code has just stated that p may be null there", floor=floor)
+    for f in fb.lib_funcs(inst=False):
+        cnt = {}
+        for s in find_all(f["body"], lambda k: k[0] == "if" and k[1][0] == "declcond" and k[1][3] is not None and "*" in str(k[1][2])):
+            p = s[1][1]
+            cnt[p] = cnt.get(p, 0) + 1
+            key = "%s#%s#%d" % (f["qual"], p, cnt[p])
+            els = s[3]
+            # stop at a nested re-declaration of the same name (else-if chains re-bind `raw`)
+            bad = []
+
+            def uses(x):
+                return find_all((x,), lambda k: (k[0] == "mcall" and k[3] in (("var", p), ("deref", ("var", p)))) or (k[0] == "member" and k[1] in (("var", p), ("deref", ("var", p)))))
+
+            def scan(block):
+                """dereferences of p in this block while p still denotes the null pointer (a re-declaration or assignment ends that)"""
+                for st in block:
+                    if st[0] == "decl" and st[1] == p:
+                        return False
+                    if st[0] == "assign" and st[1] == ("var", p):
+                        return False
+                    if st[0] == "if" and st[1][0] == "declcond" and st[1][1] == p:
+                        bad.extend(uses(st[1][3]))
+                        scan(st[3])          # then-branch: p re-bound and non-null; else-branch: still the pattern of the inner if
+                        continue
+                    for e in cs.head_exprs(st):
+                        bad.extend(uses(e))
+                    for blk in cs.sub_blocks(st):
+                        scan(blk)
+                return True
+            scan(els)
+            r.check(not bad, key, "%s:%d" % (f["file"], bad[0][-1] if bad and isinstance(bad[0][-1], int) else s[-1]),
+                    "%s dereferences `%s` in the else-branch of `if (%s %s = dynamic_cast...)`, i.e. exactly when the cast failed and %s is null" % (f["qual"], p, s[1][2], p, p), detail="not dereferenced where null")
+    return r.done()
+
+
+# ------------------------------------------------------------------------------------------------
+# L-22  comparators handed to std::sort / stable_sort are strict
+
+def rule_strict_comparator(rep, fb, floor=6, name="CMP.strict-weak"):
+    r = rep.rule(name, "a comparator passed to std::sort / std::stable_sort / std::nth_element never returns the negation of a less-than result nor a non-strict comparison (!x, >=, <=): "
+                 "that is not a strict weak ordering - stable_sort then reverses ties and std::sort has undefined behaviour on equal elements; descending order is obtained by swapping the operands", floor=floor)
+    funcs = list(fb.lib_funcs(inst=False))
+    for p, tu in sorted(fb.kernel_tus().items()):
+        funcs += [f for f in tu["funcs"] if not f["inst"]]
+    sorts = ("std::sort", "std::stable_sort", "std::nth_element", "std::partial_sort", "std::lower_bound", "std::upper_bound", "sort", "stable_sort")
+    for f in funcs:
+        n = 0
+        lambdas = {d[1]: d[3] for d in find_all(f["body"], lambda k: k[0] == "decl" and k[3] is not None and k[3][0] == "lambda")}
+        for c in find_all(f["body"], lambda k: k[0] == "call" and k[1][0] == "fn" and str(k[1][1]) in sorts and len(k[2]) >= 3):
+            cmpa = c[2][-1]
+            lam = cmpa if cmpa[0] == "lambda" else (lambdas.get(cmpa[1]) if cmpa[0] == "var" else None)
+            if lam is None:
+                continue
+            n += 1
+            key = "%s#comparator%d" % (f["qual"], n)
+            bad = []
+            for ret in find_all(lam[2], lambda k: k[0] == "return" and k[1] is not None):
+                e = ret[1]
+                while e[0] == "cast":
+                    e = e[3]
+                if e[0] == "un" and e[1] == "!":
+                    bad.append(("negation", ret[-1]))
+                elif e[0] == "bin" and e[1] in (">=", "<="):
+                    bad.append(("non-strict %s" % e[1], ret[-1]))
+            r.check(not bad, key, "%s:%d" % (f["file"], bad[0][1] if bad else c[-1]),
+                    "%s: the comparator given to %s returns a %s at line %d - not a strict weak ordering (ties compare 'less' both ways)" % (f["qual"], c[1][1], bad[0][0] if bad else "", bad[0][1] if bad else 0),
+                    detail="every return is a strict comparison")
+    return r.done()
+
+
+# ------------------------------------------------------------------------------------------------
+# L-23  text is accepted as a number only if all of it is a number
+
+_STO_TABLE = {
+    "util::datetime_data#stoi#1": "the argument is the substring between the first and the last digit of a NumPy datetime unit such as [10ns]; NumPy's own dtype strings have a single run of digits there",
+}
+
+
+def rule_whole_token(rep, fb, floor=4, name="STR.whole-token"):
+    r = rep.rule(name, "std::stoi/stol/stoll/stoul/stoull/stod accept any string with a numeric prefix: wherever libawkward classifies a token with them, either the consumed length (second argument) is compared "
+                 "with the token's size, or the token has been checked to consist of digits (find_first_not_of) beforehand", floor=floor)
+    names = ("std::stoi", "std::stol", "std::stoll", "std::stoul", "std::stoull", "std::stod", "std::stof", "stoi", "stol", "stoul", "stoull", "stoll")
+    for f in fb.lib_funcs(inst=False):
+        cnt = {}
+        for c in find_all(f["body"], lambda k: k[0] == "call" and k[1][0] == "fn" and str(k[1][1]) in names and k[2]):
+            nm = str(c[1][1]).split("::")[-1]
+            cnt[nm] = cnt.get(nm, 0) + 1
+            key = "%s#%s#%d" % (f["qual"], nm, cnt[nm])
+            where = "%s:%d" % (f["file"], c[-1])
+            ok = False
+            if len(c[2]) >= 2 and c[2][1][0] == "addr" and c[2][1][1][0] == "var":
+                used = c[2][1][1][1]
+                # `used` is compared with a size somewhere in the function
+                ok = bool(find_all(f["body"], lambda k: k[0] == "bin" and k[1] in ("!=", "==", "<") and ("var", used) in (k[2], k[3]) and find_all((k,), lambda m: m[0] == "mcall" and m[1] in ("size", "length"))))
+            if not ok:
+                ok = bool(find_all(f["body"], lambda k: k[0] == "mcall" and k[1] == "find_first_not_of"))
+            if not ok and key in _STO_TABLE:
+                r.excepted(key, _STO_TABLE[key])
+                r.ok(key)
+                continue
+            r.check(ok, key, where, "%s converts text with %s without checking that the whole text was consumed: any string with a numeric prefix is accepted as that number" % (f["qual"], nm),
+                    detail="consumed length compared with the size, or digits-only check")
+    return r.done()
+
+
+# ------------------------------------------------------------------------------------------------
+# L-24  a mask or size built by shifting the int literal 1 by a variable amount is not widened afterwards
+
+def rule_shift_literal(rep, fb, floor=1, name="WIDTH.shift-literal"):
+    r = rep.rule(name, "`1 << n` with a variable n is an int shift (undefined from n = 31): where its value initialises or is combined with a 64-bit quantity the literal is first given 64 bits "
+                 "((uint64_t)1 << n, 1LL << n)", floor=floor)
+    funcs = list(fb.lib_funcs(inst=False))
+    for p, tu in sorted(fb.kernel_tus().items()):
+        funcs += [f for f in tu["funcs"] if not f["inst"]]
+    total = 0
+    for f in funcs:
+        n = 0
+
+        def visit(x, wide, f=f):
+            nonlocal n, total
+            if not isinstance(x, tuple) or not x:
+                return
+            if x[0] == "decl":
+                w = bool(x[2]) and ("64" in str(x[2]) or "long" in str(x[2]) or "size_t" in str(x[2]))
+                visit(x[3], w)
+                return
+            if x[0] == "bin" and x[1] == "<<":
+                total += 1
+                lhs = x[2]
+                if lhs[0] == "const" and lhs[1] == 1 and x[3][0] != "const":
+                    n += 1
+                    r.check(not wide, "%s#shift%d" % (f["qual"], n), "%s:%d" % (f["file"], f["line"]),
+                            "%s computes `1 << %s` as an int and then uses it as a 64-bit value: wrong from a shift of 31" % (f["qual"], str(x[3])[:30]), detail="int shift used as int")
+                    return
+            if x[0] == "cast" and ("64" in str(x[2]) or "long" in str(x[2])):
+                # (uint64_t)(1 << n) is still an int shift; (uint64_t)1 << n is handled by the lhs not being a bare const
+                visit(x[3], True)
+                return
+            for y in x:
+                if isinstance(y, tuple):
+                    visit(y, wide)
+        for s in f["body"]:
+            visit(s, False)
+    r.count("shift_expressions", total)
+    if total < 20:
+        raise AnalysisError("only %d shift expressions found (front end lost them?)" % total)
+    r.ok("all-shifts", "%d shift expressions scanned" % total)
+    return r.done()
+
+
+# ------------------------------------------------------------------------------------------------
+# L-25  geometric growth makes progress
+
+def rule_growth_progress(rep, fb, floor=2, name="GROW.progress"):
+    r = rep.rule(name, "a capacity computed as ceil(capacity * factor) is only used after being forced above the old capacity (compared with it, with capacity + 1 as the fallback): with capacity 0 or factor <= 1 "
+                 "the product does not grow - the write that follows lands outside the allocation, or the sizing loop never ends", floor=floor)
+    for f in fb.lib_funcs(inst=False):
+        n = 0
+        for st in find_all(f["body"], lambda k: k[0] in ("decl", "assign", "expr")):
+            e = st[3] if st[0] == "decl" else (st[2] if st[0] == "assign" else st[1])
+            if e is None:
+                continue
+            ceils = find_all((e,), lambda k: k[0] == "call" and k[1][0] == "fn" and str(k[1][1]).split("::")[-1] == "ceil" and k[2] and find_all((k[2][0],), lambda m: m[0] == "bin" and m[1] == "*"))
+            if not ceils:
+                continue
+            mul = find_all((ceils[0][2][0],), lambda m: m[0] == "bin" and m[1] == "*")[0]
+            caps = [x for x in (mul[2], mul[3]) if find_all((x,), lambda m: (m[0] == "member" and "reserv" in m[2]) or (m[0] == "var" and "reserv" in m[1]))]
+            if not caps:
+                continue
+            n += 1
+            key = "%s#growth%d" % (f["qual"], n)
+            where = "%s:%d" % (f["file"], st[-1])
+            # the grown value must be held in a variable that is then compared with the old capacity
+            held = st[1] if st[0] == "decl" else (st[1][1] if st[0] == "assign" and st[1][0] == "var" else None)
+            cap = caps[0]
+            capname = cap[2] if cap[0] == "member" else (cap[1] if cap[0] == "var" else None)
+            ok = False
+            if held and held != capname:
+                ok = bool(find_all(f["body"], lambda k: k[0] in ("cond", "bin") and find_all((k,), lambda m: m == ("var", held)) and find_all((k,), lambda m: m[0] == "bin" and m[1] in (">", "<", ">=", "<=") and ("var", held) in (m[2], m[3]))
+                                   and find_all((k,), lambda m: m[0] == "bin" and m[1] == "+" and ("const", 1) in (m[2], m[3]))))
+            r.check(ok, key, where, "%s takes ceil(capacity * factor) as the new capacity without forcing it above the old one: no growth from capacity 0 or with a factor <= 1" % f["qual"],
+                    detail="compared with the old capacity, + 1 as fallback")
     return r.done()
